@@ -11,7 +11,9 @@ for l in open('/verif/KNOWN_FINDINGS.txt'):
     txt=re.sub(r'\(findings/[^)]*\)','',txt)
     txt=re.sub(r'; (found|observed|noted|pointed)[^;]*$','',txt)
     known.setdefault(pid,[]).append(('already fixed: ' if kind=='fixed' else 'STILL PRESENT (known, do not report again): ')+txt[:420])
-tpl=open('/tmp/wt/HUNT_PROMPT.txt').read()
+HERE=os.path.dirname(os.path.abspath(__file__))
+tpl=open(os.path.join(HERE,'HUNT_PROMPT.txt')).read()
+os.makedirs('/tmp/wt',exist_ok=True)
 EXTRA_KNOWN={
  'C11': ['examined earlier and NOT counted as a defect (do not report again): get_instance_page pages over the subscriber view (drops disabled instances) while the service row counts the raw registry'],
  'C12': ['examined earlier and NOT counted as a defect (do not report again): a gRPC BatchInstanceRequest does not replace the connection\'s previous batch'],
@@ -30,6 +32,10 @@ extra = ("\nHint for cluster-level properties: the real binary can be run as a l
  "if only an end-to-end script can show the defect, deliver it as `d<n>_demo.sh` with its output instead of `d<n>_test.diff`.\n")
 for pid in sys.argv[1:]:
     wt='/tmp/wt/H'+pid
+    if not os.path.isdir(wt):
+        subprocess.check_call(['git','-C','/repo','worktree','add','--detach','-q',wt,'HEAD'])
+        subprocess.check_call(['cp','/repo/Cargo.lock',wt+'/'])
+        subprocess.check_call(['cp','-a','/repo/target',wt+'/target'])
     k=known.get(pid,[])
     kb='Already known for this property (do not report these again; look elsewhere):\n'+'\n'.join(' - '+x for x in k) if k else ''
     n=int(pid[1:])
